@@ -10,12 +10,17 @@
     - [unbond_effect]         : an accepted Unbond hook burns exactly the amount sent (last message,
       to the calling token), credits amount - fee (bSei) / amount (stSei) to wait(user, open batch)
       and to the batch total, and touches no other wait entry;
+    - [bsei_hook_names_caller] / [stsei_hook_names_caller] : the Receive hook built by the tokens names
+      the caller of Send / SendFrom (the spender) and the amount moved;
+    - [wait_change_cases]           : trichotomy for every wait entry across one hub message;
     - [claims_only_via_tokens]      : a wait entry is created / changed to a new value only by an
       Unbond hook coming from one of the two registered token contracts;
     - [claims_removed_only_by_owner]: a wait entry disappears only in a WithdrawUnbonded sent by its
       owner, for a batch that is released; otherwise it can only grow;
     - [user_waits_faithful], [user_waits_sorted_reachable], [query_history_slice] : the
-      UnbondRequests / AllHistory queries report the books faithfully. *)
+      UnbondRequests / AllHistory queries report the books faithfully;
+    - [example_*_nonvacuous], [claims_inv_refuted_by_legacy] : concrete worlds (two users, both
+      tokens in one batch, Send and SendFrom, peg fee, epoch boundary, paid withdrawal). *)
 From Krp Require Import Tactics Prelude Fixed FMap Types Env Registry Cw20 Reward Dispatcher Hub Exec
      ExecP HubFrame HubAdmin Pause ClaimsStep.
 From Coq Require Import Sorted.
